@@ -41,9 +41,31 @@ def run(ctx):
             script.append(step("line", b"221 bye\r\n"))
             ops.append({"op": "quit"})
             multi.append(({"id": 100000 + len(multi), "flavor": fl, "timeout_ms": 3000, "servers": [script], "ops": ops}, seq))
-    res = run_scenarios(scs + [m[0] for m in multi])
-    mres = res[len(scs):]
+    # a large message to a peer that reads slowly: the client's writes meet a full socket buffer (short writes, back-pressure)
+    big = (b"line of text with a dot at the start of the next\r\n.and more \r\n" * 70000)[: (4 << 20) if ctx.tier == "quick" else (12 << 20)]
+    slow = []
+    for fl in ("sync", "tokio"):
+        script = [step("none", b"220 hi\r\n"), step("line", b"250-srv\r\n250-8BITMIME\r\n250 SMTPUTF8\r\n"), step("line", b"250 ok\r\n"), step("line", b"250 ok\r\n"),
+                  step("line", b"354 go\r\n"), step("data", b"250 queued\r\n", slow_us=150), step("line", b"221 bye\r\n")]
+        slow.append({"id": 200000 + len(slow), "flavor": fl, "timeout_ms": 20000, "server_cap_ms": 30000, "servers": [script],
+                     "ops": [{"op": "connect", "hello": hx(b"c03.test")}, {"op": "send", "from": hx(b"a@x.org"), "to": [hx(b"b@y.org")], "msg": hx(big)}, {"op": "quit"}]})
+    res = run_scenarios(scs + [m[0] for m in multi] + slow)
+    sres = res[len(scs) + len(multi):]
+    mres = res[len(scs):len(scs) + len(multi)]
     res = res[:len(scs)]
+    slow_bad = []
+    for sc, r in zip(slow, sres):
+        ctx.count()
+        srv = (r.get("servers") or [None])[0]
+        Rs = events_R(srv) if srv else []
+        unit = Rs[4] if len(Rs) > 4 else b""
+        # RFC 5321 4.5.2 receiver, in python for this size: drop the terminator, then one leading dot per line
+        ok = unit.endswith(b"\r\n.\r\n") and len(Rs) == 6
+        if ok:
+            got = b"\r\n".join(l[1:] if l.startswith(b".") else l for l in unit[:-5].split(b"\r\n")) + b"\r\n"
+            ok = got == big + b"\r\n" if not big.endswith(b"\r\n") else got == big + b"\r\n"
+        if not ok:
+            slow_bad.append((sc["flavor"], "a %d-octet message to a slowly reading peer: the receiver reconstructs %d octets in %d units (results %s)" % (len(big), len(unit), len(Rs), str(r.get("results"))[:200])))
     wires = run_model(["codec.wire\t" + hx(m) for m in msgs])
     multi_bad = []
     mspec, midx = [], []
@@ -89,6 +111,9 @@ def run(ctx):
     ctx.cov["correspondence"]["smtp_wire"] = {"dialogues": len(scs), "flavors": ["sync", "tokio"], "disagreements": len(bad_corr)}
     ctx.cov["oracle"]["server_data_on_tcp_octets"] = {"cases": len(spec_lines), "failures": len(bad_oracle)}
     ctx.cov["oracle"]["several_messages_on_one_connection"] = {"sessions": len(multi), "messages": sum(len(m[1]) for m in multi), "failures": len(multi_bad)}
+    ctx.cov["oracle"]["large_message_to_slow_reader"] = {"cases": len(slow), "octets": len(big), "failures": len(slow_bad)}
+    if slow_bad:
+        ctx.violation({"kind": "oracle-wire-backpressure", "flavor": slow_bad[0][0], "what": slow_bad[0][1]})
     if multi_bad:
         j, why = multi_bad[0]
         ctx.violation({"kind": "oracle-wire-session", "flavor": multi[j][0]["flavor"], "what": why, "messages_hex": [hx(m) for m in multi[j][1]], "scenario": multi[j][0]})
